@@ -4,6 +4,11 @@
  * of exactly strlen+1 bytes, as in the interpreter's memory, so an over-read or over-write is reported.
  *
  * stdin : <function> <hex string> [<hex string> <hex string>]     stdout: <function> <result>
+ *
+ * Functions over an econf_file (has_group, first_entry, first_definition, find_key, getFromGroupList): the first argument
+ * describes the object: eh<hexgroup>:h<hexkey>,h<hexgroup>:h<hexkey>,...   (entries; the array has exactly that many elements)
+ *                  or  gh<hexname>,h<hexname>,...                            (the group list; groups[count] = NULL)
+ * further arguments: h<hex> string, - NULL, n<decimal> number.
  */
 #define _GNU_SOURCE
 #include <stdio.h>
@@ -17,6 +22,7 @@
 #undef main
 #include "libeconf_ext.c"
 #include "getfilecontents.c"
+#include "mergefiles.c"
 
 static int hexv(int c) { return c <= '9' ? c - '0' : (c | 32) - 'a' + 10; }
 static char *dec(const char *t)
@@ -33,6 +39,84 @@ static void put_hex(const char *s)
   for (const unsigned char *p = (const unsigned char *)s; *p; p++) printf("%02x", *p);
 }
 
+static char *dec_raw(const char *t, size_t n)      /* n hex digits pairs at t */
+{
+  char *o = malloc(n + 1);
+  for (size_t i = 0; i < n; i++) o[i] = (char)(hexv(t[2 * i]) << 4 | hexv(t[2 * i + 1]));
+  o[n] = 0;
+  return o;
+}
+
+/* an econf_file whose arrays are exactly as long as the description says */
+static void build_kf(econf_file *kf, const char *spec)
+{
+  memset(kf, 0, sizeof *kf);
+  kf->delimiter = '='; kf->comment = '#';
+  size_t n = 0;
+  if (spec[1]) { n = 1; for (const char *p = spec; *p; p++) if (*p == ',') n++; }
+  if (spec[0] == 'e') {
+    kf->file_entry = malloc(n * sizeof(struct file_entry) + (n ? 0 : 1));
+    kf->length = kf->alloc_length = n;
+    const char *p = spec + 1;
+    for (size_t i = 0; i < n; i++) {
+      const char *c = strchr(p, ':'), *e = strchr(p, ',');
+      if (!e) e = p + strlen(p);
+      memset(&kf->file_entry[i], 0, sizeof(struct file_entry));
+      kf->file_entry[i].group = dec_raw(p + 1, (size_t)(c - p - 1) / 2);
+      kf->file_entry[i].key = dec_raw(c + 2, (size_t)(e - c - 2) / 2);
+      p = *e ? e + 1 : e;
+    }
+  } else {
+    kf->groups = malloc((n + 1) * sizeof(char *));
+    kf->group_count = (int)n;
+    const char *p = spec + 1;
+    for (size_t i = 0; i < n; i++) {
+      const char *e = strchr(p, ',');
+      if (!e) e = p + strlen(p);
+      kf->groups[i] = dec_raw(p + 1, (size_t)(e - p - 1) / 2);
+      p = *e ? e + 1 : e;
+    }
+    kf->groups[n] = NULL;
+  }
+}
+static void free_kf(econf_file *kf)
+{
+  for (size_t i = 0; i < kf->length; i++) { free(kf->file_entry[i].group); free(kf->file_entry[i].key); }
+  free(kf->file_entry);
+  for (int i = 0; i < kf->group_count; i++) free(kf->groups[i]);
+  free(kf->groups);
+}
+static char *argstr(const char *t) { return (!t || t[0] == '-') ? NULL : dec(t); }
+
+static int kf_function(const char *f, char **tok, int n)
+{
+  if (strcmp(f, "has_group") && strcmp(f, "first_entry") && strcmp(f, "first_definition") && strcmp(f, "find_key") &&
+      strcmp(f, "getFromGroupList"))
+    return 0;
+  econf_file kf;
+  build_kf(&kf, tok[1]);
+  char *a = n > 2 ? argstr(tok[2]) : NULL, *b = n > 3 ? argstr(tok[3]) : NULL;
+  printf("%s ", f);
+  if (!strcmp(f, "has_group")) printf("%d", (int)has_group(&kf, a));
+  else if (!strcmp(f, "first_entry")) printf("%zu", first_entry(&kf, a, b));
+  else if (!strcmp(f, "first_definition")) printf("%d", (int)first_definition(&kf, strtoull(tok[2] + 1, NULL, 10)));
+  else if (!strcmp(f, "find_key")) {
+    size_t *num = malloc(sizeof *num);      /* written only on success */
+    econf_err e = find_key(kf, a, b, num);
+    if (e) printf("E%d -", (int)e); else printf("E0 %zu", *num);
+    free(num);
+  } else {
+    char *r = getFromGroupList(&kf, a);
+    int at = -1;
+    for (int i = 0; i < kf.group_count; i++) if (kf.groups[i] == r) at = i;
+    if (r) printf("%d", at); else printf("null");
+  }
+  printf("\n");
+  free(a); free(b);
+  free_kf(&kf);
+  return 1;
+}
+
 int main(void)
 {
   char *line = NULL; size_t cap = 0;
@@ -41,6 +125,7 @@ int main(void)
     for (char *p = strtok_r(line, " \n", &save); p && n < 5; p = strtok_r(NULL, " \n", &save)) tok[n++] = p;
     if (n < 2) continue;
     const char *f = tok[0];
+    if (kf_function(f, tok, n)) continue;
     char *a = dec(tok[1]), *b = n > 2 ? dec(tok[2]) : NULL, *c = n > 3 ? dec(tok[3]) : NULL;
     printf("%s ", f);
     if (!strcmp(f, "stripbrackets")) { char *r = stripbrackets(a); printf("%ld ", (long)(r - a)); put_hex(r); }
